@@ -255,6 +255,14 @@ func init() {
 			}
 			return mkBV(64, 0)
 		},
+		"vfDigest": func(fr *frame, a []value) value {
+			t := bvOf(a[1])
+			if !t.isC {
+				panic(engineError{"vfDigest of a symbolic value"})
+			}
+			fmt.Printf("DIGEST %s %d\n", strArg(a[0]), t.c)
+			return nil
+		},
 		"vfFail": func(fr *frame, a []value) value {
 			fr.m().obligation(strArg(a[0]), falseT)
 			return nil
